@@ -123,6 +123,23 @@ func MakePayload(r *rand.Rand, class string) Payload {
 			b = append(b, blk...)
 		}
 		b = b[:len(b)-r.Intn(100)]
+	case "sandwich": // compressible, then > 64 KiB incompressible, then mildly compressible noise: LZMA2 / deflate switch to stored chunks and back
+		n1, n2, n3 := 20000+r.Intn(30000), 70000+r.Intn(80000), 30000+r.Intn(30000)
+		for len(b) < n1 {
+			k := r.Intn(len(text))
+			b = append(b, text[k:]...)
+		}
+		b = b[:n1]
+		mid := make([]byte, n2)
+		r.Read(mid)
+		b = append(b, mid...)
+		for i := 0; i < n3; i++ {
+			c := byte(r.Intn(256))
+			if r.Intn(3) != 0 {
+				c &= 0x1F // fewer significant bits: compressible, but with little match structure
+			}
+			b = append(b, c|byte(r.Intn(2))<<7)
+		}
 	case "multiblock": // several hundred KB of mixed content: 4+ bzip2 -1 blocks, several 64 KiB deflate/xz units
 		n := 330000 + r.Intn(150000)
 		for len(b) < n {
